@@ -6,6 +6,7 @@ NOT_APPLICABLE = {}
 
 PROPS = {
     "C01": {
+        "needs_binary": True,
         "lean": ["OxiModel.Props.C01", "OxiModel.Props.C01Layout"],
         "streams": [{"name": "corr-reduce", "quick": 6000, "thorough": 120000},
                     {"name": "corr-geom", "quick": 30, "thorough": 300}],
@@ -30,6 +31,7 @@ PROPS = {
                 "distinct = distinct request lines / (input, options) pairs",
     },
     "C03": {
+        "needs_binary": True,
         "lean": ["OxiModel.Props.C03"],
         "streams": [{"name": "corr-filters", "quick": 4000, "thorough": 80000},
                     {"name": "corr-reduce", "quick": 4000, "thorough": 80000},
@@ -52,6 +54,7 @@ PROPS = {
         "rule": "filter_line with alpha_bytes in {1,2} on rows with random transparent runs (all / none / mixed) for the five filters; e2e with optimize_alpha=true; distinct as C01",
     },
     "C08": {
+        "needs_binary": True,
         "lean": ["OxiModel.Props.C08"],
         "streams": [{"name": "corr-lineage", "args": ["C08"], "quick": 1600, "thorough": 30000},
                     {"name": "corr-reduce", "quick": 4000, "thorough": 80000}],
@@ -99,6 +102,7 @@ PROPS = {
         "rule": "per (input, options) pair: every k in 0..K when K<=24, else 0,1,2,K-1,K and 12 random k (thorough: every k); distinct = distinct (lineage request, k)",
     },
     "C15": {
+        "needs_binary": True,
         "lean": ["OxiModel.Props.C15"],
         "streams": [{"name": "corr-reduce", "quick": 4000, "thorough": 80000}],
         "oracles": [{"name": "e2e", "args": ["C15"], "quick": 4000, "thorough": 60000}],
@@ -110,6 +114,7 @@ PROPS = {
         "rule": "all 65 536 sample values (digest), reductions stream, e2e with scale_16=true biased to 16-bit inputs of all four 16-bit colour types with and without keys; distinct as C01",
     },
     "C02": {
+        "needs_binary": True,
         "lean": ["OxiModel.Props.C02"],
         "streams": [{"name": "corr-chunks", "quick": 1200, "thorough": 20000}],
         "oracles": [{"name": "e2e", "args": ["C02"], "quick": 4000, "thorough": 60000},
